@@ -378,7 +378,7 @@ func runC12(c *sim.Ctx) *sim.Violation {
 		if peek && t.Bool(1, 3) {
 			// a read-only operation between two setter calls (String, WriteTo,
 			// Dump, WellFormed, accessors): must not disturb anything
-			drv.ReadOnly(p, t.Int(5))
+			drv.ReadOnly(p, t.Int(drv.ReadOnlyKinds))
 			c.Count("probe.read-only-op-between-setters")
 		}
 		var got string
